@@ -331,6 +331,121 @@ def exhaustive_r():
     return out
 
 
+# ============================================================================ U: the tuple validator rebuilds its result
+
+def run_u(case):
+    """`U|behaviours|items|path`: twin of Driver `handleU` on a real Tuple trait."""
+    import ctypes
+    import traits.api as T
+    from traits.api import TraitError
+    parts = case.split("|")
+    behs, items = parts[1].split(), [int(x) for x in parts[2].split()]
+    path = parts[3].strip() if len(parts) > 3 else "v"
+
+    class V(object):
+        __slots__ = ("i", "__weakref__")
+
+        def __init__(self, i):
+            self.i = i
+    pool = [None] + [V(i) for i in range(1, 10)]
+    keep = [list(pool) for _ in range(3)]
+    ident = dict((id(pool[i]), i) for i in range(1, 10))
+
+    def mk(b):
+        if b == "n":
+            return T.Any()
+        if b == "s":
+            f = lambda self, o, n, v: v                                    # noqa: E731
+        elif b.startswith("c"):
+            f = lambda self, o, n, v, k=int(b[1:]): pool[k]                # noqa: E731
+        else:
+            def f(self, o, n, v, e=b[1:]):
+                raise (TraitError("rejected") if e == "TraitError" else exc_class(e)("element validator raises"))
+        return type("EL", (T.TraitType,), {"validate": f})()
+    cls = type(T.HasTraits)("UHost", (T.HasTraits,), {"q": T.Tuple(*[mk(b) for b in behs])})
+    h = cls()
+    ct = h.trait("q")
+    value = tuple(pool[i] for i in items)
+    gc.collect()
+    base = [0] + [sys.getrefcount(pool[i]) for i in range(1, 10)]
+    res, r = "ok", None
+    try:
+        if path == "s":
+            h.q = value
+            r = h.__dict__["q"]
+        else:
+            r = ct.validate(h, "q", value)
+    except Exception as e:
+        res = "err " + exc_name(e)
+        del e
+    deltas = [sys.getrefcount(pool[i]) - base[i] for i in range(1, 10)]
+    hits = []
+    if res == "ok":
+        if r is value:
+            head, expect, cls_ = "same", [0] * 9, "same"
+        else:
+            ids = [ident.get(id(x), 0) for x in r]
+            head = "new [" + ",".join(map(str, ids)) + "]"
+            expect = [ids.count(i) for i in range(1, 10)]
+            conv = [i for i, (a, b) in enumerate(zip(r, value)) if a is not b]
+            cls_ = "conversion-at-%d" % conv[0] if conv else "new"
+    else:
+        head, expect, cls_ = res, [0] * 9, "raises"
+    out = "%s r=[%s]" % (head, ",".join(map(str, deltas)))
+    # ---------------- oracle: the result owns one reference per slot, nothing else changed
+    if deltas != expect:
+        hits.append({"signature": "refcount:tuple-rebuild:%s:%s" % (path, cls_),
+                     "what": "Tuple(%s) given items %s (%s): reference changes %s, the result's slots account for %s" % (
+                         " ".join(behs), items, head, deltas, expect)})
+    # give back what is missing before anything is freed (a deficit would free objects we still use)
+    for i in range(1, 10):
+        for _ in range(max(0, expect[i - 1] - deltas[i - 1])):
+            ctypes.pythonapi.Py_IncRef(ctypes.py_object(pool[i]))
+            base[i] += 1
+    r = None
+    if path == "s":
+        try:
+            del h.q
+        except Exception:
+            pass
+    gc.collect()
+    after = [sys.getrefcount(pool[i]) - base[i] for i in range(1, 10)]
+    if any(after) and not hits:
+        hits.append({"signature": "refcount:tuple-release:%s:%s" % (path, cls_),
+                     "what": "after the result of Tuple(%s) on %s was released, counts are off by %s" % (
+                         " ".join(behs), items, after)})
+    for i in range(1, 10):
+        for _ in range(max(0, -after[i - 1])):
+            ctypes.pythonapi.Py_IncRef(ctypes.py_object(pool[i]))
+    del keep
+    return out, hits, ["U:" + path, "U:" + cls_]
+
+
+def gen_u(rng=None, n=0):
+    import itertools
+    out = []
+    behs = ["n", "s", "c9", "c8", "rTraitError", "rValueError"]
+    for size in (1, 2, 3):
+        for bs in itertools.product(behs, repeat=size):
+            if sum(1 for b in bs if b.startswith("r")) > 1:
+                continue
+            for items in ([1, 2, 3][:size], [1, 1, 1][:size], [9, 2, 9][:size]):
+                for path in ("v", "s"):
+                    out.append("U|%s|%s|%s" % (" ".join(bs), " ".join(map(str, items)), path))
+    for bs, items in (("s s s c7", "1 2 3 4"), ("n n n n c7 s c6", "1 2 3 4 5 5 1"), ("s c2 s s", "1 2 3 4"),
+                      ("s s", "1 2 3"), ("s s s", "1 2")):
+        for path in ("v", "s"):
+            out.append("U|%s|%s|%s" % (bs, items, path))
+    for _ in range(n):
+        size = rng.randint(1, 6)
+        bs = [rng.choice(behs[:4] + ["s", "s", "n"]) for _ in range(size)]
+        if rng.random() < 0.2:
+            bs[rng.randrange(size)] = rng.choice(["rTraitError", "rValueError"])
+        out.append("U|%s|%s|%s" % (" ".join(bs), " ".join(str(rng.randint(1, 9)) for _ in range(size)),
+                                   rng.choice("vs")))
+    return out
+
+
 # ============================================================================ V: validation is reference-neutral
 
 V_TRAITS = ["Int", "Float", "Str", "CInt", "CFloat", "CStr", "Bool", "Complex", "Bytes", "Any", "Range(0,9)",
@@ -338,10 +453,12 @@ V_TRAITS = ["Int", "Float", "Str", "CInt", "CFloat", "CStr", "Bool", "Complex", 
             "Either(None,Int)", "Either(Range,List)", "Either(Range,Float)", "Either(Range,Str)",
             "Either(Float-Range,CInt)", "Either(Range,Range)", "Union(Int,Str)", "Union(None,Float)",
             "Union(Range,Float)", "Either(Str,Range,Instance)", "Either(CFloat,Str)", "Either(Enum,Range,Tuple)",
-            "Tuple(Int,Str)", "Tuple(Float,Range)", "List(Int)", "List(Either(Range,Float))", "Set(Int)",
+            "Tuple(Int,Str)", "Tuple(Float,Range)", "Tuple(Any,Any,Float)", "Either(Str,Tuple(Any,Float))",
+            "Tuple(Any,Tuple(Any,Float))", "List(Tuple(Any,Float))", "Tuple(Any,CInt,Any,CFloat)",
+            "Dict(Str,Tuple(Any,Float))", "Either(Tuple(Any,Float),Tuple(Any,Any,Float))", "Tuple(Any,Range-int)", "List(Int)", "List(Either(Range,Float))", "Set(Int)",
             "Dict(Str,Int)", "Dict(Str,Either(Range,Str))", "Map", "PrefixList", "Instance(Cls)", "Callable",
             "String(maxlen)", "Trait(0,Range)", "Trait(None,Int)", "Type", "TraitType-python-validate"]
-V_VALUES = ["f5.5", "f0.5", "f-3.25", "fnan", "i_big", "i_mid", "s_dyn", "s_num", "obj", "list", "flist", "tuple",
+V_VALUES = ["t_conv2", "t_conv3", "t_conv4", "t_nested", "l_tconv", "d_tconv", "f5.5", "f0.5", "f-3.25", "fnan", "i_big", "i_mid", "s_dyn", "s_num", "obj", "list", "flist", "tuple",
             "ftuple", "dict", "fdict", "bytes", "cplx", "set"]
 
 
@@ -360,6 +477,15 @@ def v_trait(name):
         "Tuple(Float,Range)": lambda: T.Tuple(T.Float, T.Range(0.0, 1.0)),
         "List(Either(Range,Float))": lambda: T.List(T.Either(T.Range(0.0, 1.0), T.Float)),
         "Dict(Str,Either(Range,Str))": lambda: T.Dict(T.Str, T.Either(T.Range(0.0, 1.0), T.Str)),
+        "Tuple(Any,Any,Float)": lambda: T.Tuple(T.Any, T.Any, T.Float),
+        "Either(Str,Tuple(Any,Float))": lambda: T.Either(T.Str, T.Tuple(T.Any, T.Float)),
+        "Tuple(Any,Tuple(Any,Float))": lambda: T.Tuple(T.Any, T.Tuple(T.Any, T.Float)),
+        "List(Tuple(Any,Float))": lambda: T.List(T.Tuple(T.Any, T.Float)),
+        "Tuple(Any,CInt,Any,CFloat)": lambda: T.Tuple(T.Any, T.CInt, T.Any, T.CFloat),
+        "Dict(Str,Tuple(Any,Float))": lambda: T.Dict(T.Str, T.Tuple(T.Any, T.Float)),
+        "Either(Tuple(Any,Float),Tuple(Any,Any,Float))": lambda: T.Either(T.Tuple(T.Any, T.Float),
+                                                                           T.Tuple(T.Any, T.Any, T.Float)),
+        "Tuple(Any,Range-int)": lambda: T.Tuple(T.Any, T.Range(0.0, 1e12)),
     }
     if name in extra:
         return extra[name]()
@@ -371,7 +497,17 @@ def v_trait(name):
 def v_value(name):
     """A FRESH, mortal object every time (never an interned / cached constant)."""
     big = int("12345678901")
+
+    class Tok(object):
+        pass
     return {
+        # tuples whose LAST / middle element is converted by its element trait (int -> float, str -> int)
+        "t_conv2": lambda: (Tok(), int("12345678903")),
+        "t_conv3": lambda: (Tok(), "".join(["x", "y"]), int("12345678904")),
+        "t_conv4": lambda: (Tok(), "".join(["4", "2"]), Tok(), int("12345678905")),
+        "t_nested": lambda: (Tok(), (Tok(), int("12345678906"))),
+        "l_tconv": lambda: [(Tok(), int("12345678907")), (Tok(), float("1.5"))],
+        "d_tconv": lambda: {"".join(["k", "3"]): (Tok(), int("12345678908"))},
         "f5.5": lambda: float("5.5"), "f0.5": lambda: float("0.5"), "f-3.25": lambda: float("-3.25"),
         "fnan": lambda: float("nan"), "i_big": lambda: int("12345678901"), "i_mid": lambda: int("1000003"),
         "s_dyn": lambda: "".join(["ab", "cd"]), "s_num": lambda: "".join(["1", "2", "3"]), "obj": lambda: object(),
@@ -404,10 +540,39 @@ def run_v(case):
     if sys.getrefcount(v) >= 2 ** 30:
         return "skip immortal value", [], ["V:skip"]
     leaves = []
-    if isinstance(v, (list, tuple)):
-        leaves = [x for x in v if sys.getrefcount(x) < 2 ** 30]
-    elif isinstance(v, dict):
-        leaves = [x for x in v.values() if sys.getrefcount(x) < 2 ** 30]
+
+    def collect(x, depth=0):
+        if isinstance(x, (list, tuple, set)) and depth < 4:
+            for y in x:
+                collect(y, depth + 1)
+        elif isinstance(x, dict) and depth < 4:
+            for y in x.values():
+                collect(y, depth + 1)
+        elif sys.getrefcount(x) < 2 ** 30 and not any(x is l for l in leaves):
+            leaves.append(x)
+    if isinstance(v, (list, tuple, dict, set)):
+        collect(v)
+    keep = [list(leaves) for _ in range(3)]   # an over-release must not free what we still look at
+
+    own = set()
+
+    def subcontainers(x, depth=0):
+        if isinstance(x, (list, tuple, set, dict)) and depth < 5:
+            own.add(id(x))
+            for y in (x.values() if isinstance(x, dict) else x):
+                subcontainers(y, depth + 1)
+    subcontainers(v)
+
+    def occurrences(x, leaf, depth=0):
+        if x is leaf:
+            return 1
+        if id(x) in own:
+            return 0    # a container of the value itself, passed through unchanged: its slots are in the baseline
+        if isinstance(x, (list, tuple, set)) and depth < 5:
+            return sum(occurrences(y, leaf, depth + 1) for y in x)
+        if isinstance(x, dict) and depth < 5:
+            return sum(occurrences(y, leaf, depth + 1) for y in x.values())
+        return 0
     hits, outs = [], []
     ct = h.trait("q")
     gc.collect()
@@ -438,17 +603,23 @@ def run_v(case):
                                  "object holds %d" % ("assignment" if path == "set" else "CTrait.validate", vname,
                                                       tname, rep + 1, res, cur - base, held)})
             break
-        # items of a container value: after the first round the stored container keeps what it keeps; later
-        # rounds must not add to it
+        # items of a container value: each is referenced once more per slot of the STORED value that holds it
+        # (the stored value is usually a new container: a rebuilt tuple, a Trait*Object), and not at all when only
+        # CTrait.validate ran and its result was dropped
+        stored = h.__dict__.get("q") if path == "set" else None
+        want = [0 if stored is v else occurrences(stored, leaves[i]) for i in range(len(leaves))]
+        stored = None
         lcur = [sys.getrefcount(leaves[i]) - lbase[i] for i in range(len(leaves))]
-        if rep == 0:
-            first_leaf = lcur
-        elif rep >= 2 and lcur != prev_leaf:
+        if lcur != want:
             hits.append({"signature": "refcount:validate-items:%s:%s-%s" % (tname, path, "ok" if res == "ok" else "raises"),
-                         "what": "repeating the %s of a %s to %s keeps adding references to its items: %r then %r" % (
-                             path, vname, tname, prev_leaf, lcur)})
+                         "what": "%s of a %s to %s, repetition %d (%s): its items have %r more references, the stored "
+                                 "value's slots account for %r" % (path, vname, tname, rep + 1, res, lcur, want)})
+            import ctypes
+            for i in range(len(leaves)):
+                for _ in range(max(0, want[i] - lcur[i])):
+                    ctypes.pythonapi.Py_IncRef(ctypes.py_object(leaves[i]))
             break
-        prev_leaf = lcur
+    del keep
     return " ".join(outs), hits, ["V:" + path, "V:" + ("ok" if outs and outs[-1] == "ok" else "raises")]
 
 
